@@ -405,7 +405,7 @@ def variants(rng, base, sid0, thresholds, rals, classes):
 def run_c10(ctx, binary):
     th = ctx.thorough()
     bg = Background(ctx, lambda c: (
-        exhaustive(c, consts(2, 2, 2, 6 if th else 5, 2, 0, False, False, "{0, 60, 100000}", "{FALSE}"), "C10"),
+        exhaustive(c, consts(2, 2, 2 if th else 1, 6 if th else 5, 2, 0, False, False, "{0, 60, 100000}", "{FALSE}"), "C10"),
         {"nl_name": reachable(c, consts(2, 1, 1, 4, 2, 0, False, False, "{100000}", "{FALSE}", evil="{2}"),
                               "NoC10rejoin", "C10 newline name")}))
     num, depth = (400, 40) if th else (48, 36)
@@ -436,8 +436,8 @@ def run_c10(ctx, binary):
            "shutdown+restart) executed on the real Snapshotter under minCompactSize 0/300/128K with the same concrete names; "
            "every restart state is compared by TLC with the state the inputs imply; distinct = distinct (history, threshold, "
            "name class)",
-           {"model_constants": "exhaustive: 2 names x 2 addresses, times 0..2, <=%d inputs, 2 sessions, thresholds {0,60,never} "
-                               "with 40 bytes/node; simulation: 3 names x 3 addresses, times 0..6 mapped to 64-bit values" % (6 if th else 5),
+           {"model_constants": "exhaustive: 2 names x 2 addresses, times 0..%d, <=%d inputs, 2 sessions, thresholds {0,60,never} "
+                               "with 40 bytes/node; simulation: 3 names x 3 addresses, times 0..6 mapped to 64-bit values" % (2 if th else 1, 6 if th else 5),
             "evaluations": summ["restarts"], "histories_differing_across_thresholds": differ,
             "newline_class_schedules": len([s for s in scheds if s["cfg"]["cls"] == "newline"])},
            ASSUME)
@@ -448,7 +448,7 @@ def run_c10(ctx, binary):
 def run_c11(ctx, binary):
     th = ctx.thorough()
     bg = Background(ctx, lambda c: (
-        exhaustive(c, consts(2, 2, 2, 5 if th else 4, 3, 0, True, True, "{0, 60, 100000}", "{FALSE, TRUE}"), "C11"),
+        exhaustive(c, consts(2, 2 if th else 1, 2 if th else 1, 5 if th else 4, 3, 0, True, True, "{0, 60, 100000}", "{FALSE, TRUE}"), "C11"),
         {"rm_window": reachable(c, consts(2, 1, 1, 3, 1, 0, False, False, "{0}", "{FALSE}"), "NoC11safe",
                                 "C11 remove/rename window")}))
     num, depth = (400, 40) if th else (64, 36)
@@ -465,8 +465,8 @@ def run_c11(ctx, binary):
            "every operation boundary of every executed history is a crash point: the directory image captured there is replayed "
            "by a fresh real NewSnapshotter and judged by the CrashSafe monitor; histories also contain explicit crashes followed "
            "by a restart from the crash image; distinct = distinct (history, threshold)",
-           {"model_constants": "exhaustive: 2 names x 2 addresses, times 0..2, <=%d inputs, 3 sessions, crash after any operation, "
-                               "leave allowed, thresholds {0,60,never}" % (5 if th else 4),
+           {"model_constants": "exhaustive: 2 names x %d addresses, times 0..%d, <=%d inputs, 3 sessions, crash after any "
+                               "operation, leave allowed, both rejoin-after-leave settings, thresholds {0,60,never}" % (2 if th else 1, 2 if th else 1, 5 if th else 4),
             "evaluations": summ["crashpoints"]}, ASSUME)
 
 
@@ -524,7 +524,7 @@ def run_c12(ctx, binary):
 def run_c13(ctx, binary):
     th = ctx.thorough()
     bg = Background(ctx, lambda c: exhaustive(
-        c, consts(2, 1, 2, 6 if th else 5, 3, 0, False, True, "{0, 60, 100000}", "{FALSE, TRUE}"), "C13"))
+        c, consts(2, 1, 2 if th else 1, 6 if th else 5, 3 if th else 2, 0, False, True, "{0, 60, 100000}", "{FALSE, TRUE}"), "C13"))
     num, depth = (300, 36) if th else (48, 30)
     base = simulate(ctx, [1, 1, 2, 3, 4, 5, 6, 7, 8, 9, 9, 10], num, depth, leave=True, sess=3)
     rng = random.Random(ctx.seed)
@@ -549,6 +549,6 @@ def run_c13(ctx, binary):
            "TLC -simulate behaviours with a graceful leave (events, ticks, clock advances and forced compactions before and "
            "after it), shutdown, restart, and for half of them a further session appending after the leave line; both "
            "rejoin-after-leave settings and thresholds 0/300/128K; distinct = distinct (history, threshold)",
-           {"model_constants": "exhaustive: 2 names, times 0..2, <=%d inputs, 3 sessions, both rejoin-after-leave settings, "
-                               "thresholds {0,60,never}" % (6 if th else 5),
+           {"model_constants": "exhaustive: 2 names, times 0..%d, <=%d inputs, %d sessions, both rejoin-after-leave settings, "
+                               "thresholds {0,60,never}" % (2 if th else 1, 6 if th else 5, 3 if th else 2),
             "evaluations": leaves}, ASSUME)
